@@ -40,6 +40,87 @@ class Opaque:
         return f"<opaque {self.what}>"
 
 
+import math as _math
+
+# pure functions / constants of the math module: applied to plain numbers they are evaluated, their exceptions (OverflowError, ValueError) are the program's
+SAFE_MATH = {"pow", "floor", "ceil", "sqrt", "isqrt", "log", "log2", "log10", "exp", "fabs", "trunc", "gcd", "copysign", "isnan", "isinf", "isfinite", "fmod", "ldexp", "pi", "e", "inf", "nan",
+             "prod", "comb", "factorial", "hypot", "dist", "fsum", "modf", "frexp", "expm1", "log1p"}
+
+
+_FLOCALS = {}
+
+
+def _function_locals(node):
+    """names a function body binds (so that they are locals of it): assignment / loop / with / except / import / walrus targets outside nested scopes"""
+    r = _FLOCALS.get(id(node))
+    if r is not None and r[1] is node:
+        return r[0]
+    names, outer = set(), set()
+
+    def walk(n):
+        for c in ast.iter_child_nodes(n):
+            if isinstance(c, (ast.FunctionDef, ast.AsyncFunctionDef, ast.ClassDef)):
+                names.add(c.name)
+                continue
+            if isinstance(c, (ast.Lambda, ast.ListComp, ast.SetComp, ast.DictComp, ast.GeneratorExp)):
+                continue
+            if isinstance(c, ast.Name) and isinstance(c.ctx, ast.Store):
+                names.add(c.id)
+            elif isinstance(c, ast.ExceptHandler) and c.name:
+                names.add(c.name)
+            elif isinstance(c, (ast.Import, ast.ImportFrom)):
+                for a_ in c.names:
+                    names.add((a_.asname or a_.name).split(".")[0])
+            elif isinstance(c, (ast.Global, ast.Nonlocal)):
+                outer.update(c.names)
+            walk(c)
+    if not isinstance(node, ast.Lambda):
+        for st in node.body:
+            walk(ast.Module(body=[st], type_ignores=[]))
+    out = frozenset(names - outer)
+    _FLOCALS[id(node)] = (out, node)
+    return out
+
+
+_ISGEN = {}
+
+
+def _is_generator(node):
+    r = _ISGEN.get(id(node))
+    if r is None or r[1] is not node:
+        r = (any(isinstance(n, (ast.Yield, ast.YieldFrom)) for n in ast.walk(node)), node)
+        _ISGEN[id(node)] = r
+    return r[0]
+
+
+class _NoClone(Exception):
+    pass
+
+
+def _clone_value(v, depth=0):
+    """copy of a module-level value: containers are copied (recursively), immutable values and references to program text are shared"""
+    if isinstance(v, (int, float, str, bytes, bool, type(None), complex, frozenset, FuncRef, Opaque, type)) or callable(v):
+        return v
+    if depth > 6:
+        raise _NoClone()
+    if isinstance(v, tuple):
+        return tuple(_clone_value(x, depth + 1) for x in v)
+    if isinstance(v, list):
+        return [_clone_value(x, depth + 1) for x in v]
+    if isinstance(v, bytearray):
+        return bytearray(v)
+    if isinstance(v, set):
+        return set(v)
+    if isinstance(v, dict):
+        return {k: _clone_value(x, depth + 1) for k, x in v.items()}
+    if type(v).__name__ == "AObj":
+        c = type(v)(v.pytype, {k: _clone_value(x, depth + 1) for k, x in v.attrs.items()}, v.name, v.cls_key)
+        return c
+    if type(v).__module__ in ("re", "datetime", "decimal", "enum") or type(v).__name__ in ("Res", "Sym", "EnumVal", "Pattern", "Lazy", "Pred", "BV", "Ext", "Ctx"):
+        return v
+    raise _NoClone()
+
+
 class BuiltinRaised(NotConstant):
     """a builtin / method of a builtin type applied to plain Python values raised: a definite exception of the interpreted program"""
 
@@ -76,7 +157,15 @@ CMPOPS = {
     ast.GtE: operator.ge, ast.Is: operator.is_, ast.IsNot: operator.is_not,
     ast.In: lambda a, b: a in b, ast.NotIn: lambda a, b: a not in b,
 }
+def _memview(x):
+    """memoryview of a bytes-like object, read-only use: indexing, slicing and len() agree with the object itself"""
+    if isinstance(x, (bytes, bytearray)):
+        return bytes(x)
+    raise TypeError("memoryview: a bytes-like object is required")
+
+
 SAFE_BUILTINS = {
+    "memoryview": _memview,
     "len": len, "range": range, "int": int, "str": str, "abs": abs, "min": min, "max": max, "list": list,
     "dict": dict, "tuple": tuple, "sorted": sorted, "enumerate": enumerate, "zip": zip, "bool": bool,
     "hex": hex, "set": set, "frozenset": frozenset, "sum": sum, "reversed": reversed, "float": float, "bytes": bytes,
@@ -110,7 +199,7 @@ class Lazy:
 
 
 TRANSPARENT_DECORATORS = {"property", "setter", "getter", "deleter", "staticmethod", "classmethod", "abstractmethod", "overload", "final", "override", "wraps", "dataclass",
-                          "no_type_check", "abstractproperty"}
+                          "no_type_check", "abstractproperty", "cached_property"}
 MEMO_DECORATORS = {"lru_cache", "cache"}
 
 
@@ -164,6 +253,18 @@ class ConstEval:
             return self._modenv[mod]
         if mod in self._active:
             raise NotConstant(f"cyclic module evaluation {mod}")
+        # the evaluated module body is the same for every interpreter of the same kind over the same model: later interpreters start from a copy of
+        # the first one's result (containers copied, so that one interpreter's module-level state never shows up in another)
+        tkey = (type(self).__name__, mod, tuple(sorted(map(str, getattr(self, "hooks", None) or ()))), tuple(sorted(map(str, getattr(self, "func_hooks", None) or ()))))
+        templates = self.M.__dict__.setdefault("_modenv_templates", {})
+        if tkey in templates and not self._active:
+            env = {k: _clone_value(v) for k, v in templates[tkey].items()}
+            for v in env.values():
+                if isinstance(v, FuncRef) and getattr(v, "env", None) is templates[tkey]:
+                    v.env = env
+            self._modenv[mod] = env
+            return env
+        top_level = not self._active
         self._active.add(mod)
         env: dict = {}
         self._modenv[mod] = env
@@ -178,6 +279,11 @@ class ConstEval:
             except (_Return, _Break, _Continue):
                 pass
         self._active.discard(mod)
+        if top_level and not any(isinstance(v, FuncRef) and getattr(v, "env", None) is not None for v in env.values()):
+            try:
+                templates[tkey] = {k: _clone_value(v) for k, v in env.items()}
+            except _NoClone:
+                pass
         return env
 
     def module_value(self, mod, name):
@@ -192,7 +298,16 @@ class ConstEval:
     def class_const(self, mod, cls, name):
         memo = self.__dict__.setdefault("_cc_memo", {})
         if (mod, cls, name) not in memo:
-            memo[(mod, cls, name)] = self._class_const(mod, cls, name)
+            # plain values (numbers, texts, sequences of numbers) are the same for every interpreter over the same model: computed once per model
+            shared = self.M.__dict__.setdefault("_cc_shared", {})
+            if (mod, cls, name) in shared:
+                v0 = shared[(mod, cls, name)]
+                memo[(mod, cls, name)] = list(v0) if isinstance(v0, list) else v0
+            else:
+                v0 = self._class_const(mod, cls, name)
+                memo[(mod, cls, name)] = v0
+                if isinstance(v0, (int, str, bytes, float, bool, type(None))) or (isinstance(v0, (list, tuple)) and all(isinstance(x_, (int, str, bytes, float, bool, type(None))) for x_ in v0)):
+                    shared[(mod, cls, name)] = list(v0) if isinstance(v0, list) else v0
         v = memo[(mod, cls, name)]
         # mutable results are handed out as copies so that an interpreter state cannot corrupt the constant
         return list(v) if isinstance(v, list) and type(self) is ConstEval else v
@@ -339,6 +454,8 @@ class ConstEval:
                     env[loc] = ("module", imp[1])
                 elif imp and imp[0] == "symbol":
                     env[loc] = ("symbol", imp[1], imp[2])
+                elif isinstance(s, ast.ImportFrom) and s.module == "math" and a.name in SAFE_MATH:
+                    env[loc] = getattr(_math, a.name)
                 else:
                     env[loc] = Opaque(f"external {a.name}")
             return
@@ -378,6 +495,9 @@ class ConstEval:
             raise NotConstant(f"symbol {m}.{n}")
         return ref
 
+    def definite_raise(self, cls, text):
+        raise BuiltinRaised(cls, text)
+
     def eval(self, e, env, mod):
         self.tick()
         if isinstance(e, ast.Constant):
@@ -396,6 +516,9 @@ class ConstEval:
                 return v
             if e.id in ("True", "False", "None"):
                 return {"True": True, "False": False, "None": None}[e.id]
+            if e.id in env.get("__locals__", ()):
+                # a local of the function being interpreted that no statement has bound on this path
+                self.definite_raise("UnboundLocalError", f"cannot access local variable '{e.id}' where it is not associated with a value")
             if e.id in SAFE_BUILTINS:
                 return SAFE_BUILTINS[e.id]
             raise NotConstant(f"name {e.id}")
@@ -412,6 +535,8 @@ class ConstEval:
             if isinstance(base, Opaque) and base.what.startswith("class "):
                 m, c = base.what[6:].split(".", 1)
                 return self.class_const(m, c, e.attr)
+            if isinstance(base, Opaque) and base.what == "external math" and e.attr in SAFE_MATH:
+                return getattr(_math, e.attr)
             if isinstance(base, Opaque):
                 raise NotConstant(f"attribute of {base}")
             t = type(base)
@@ -551,7 +676,7 @@ class ConstEval:
     def call(self, e, env, mod):
         # itertools summaries (lazy / infinite iterators as small objects; results are lists)
         fname = e.func.id if isinstance(e.func, ast.Name) else e.func.attr if isinstance(e.func, ast.Attribute) and isinstance(e.func.value, ast.Name) and e.func.value.id == "itertools" else None
-        if fname in ("repeat", "cycle", "islice", "chain", "zip", "filterfalse", "starmap", "accumulate", "pairwise", "takewhile", "dropwhile") and not e.keywords and \
+        if fname in ("repeat", "cycle", "islice", "chain", "zip", "filterfalse", "starmap", "accumulate", "pairwise", "takewhile", "dropwhile", "filter", "map") and not e.keywords and \
                 not (isinstance(e.func, ast.Name) and e.func.id in env and not isinstance(env[e.func.id], Opaque)):
             r = self.itertools_call(fname, [self.eval(a, env, mod) for a in e.args if not isinstance(a, ast.Starred)] if not any(isinstance(a, ast.Starred) for a in e.args)
                                     else [x for a in e.args for x in (list(self.eval(a.value, env, mod)) if isinstance(a, ast.Starred) else [self.eval(a, env, mod)])], mod)
@@ -574,7 +699,7 @@ class ConstEval:
                 pass  # containers may hold opaque elements
             else:
                 raise NotConstant("call with opaque argument")
-        if f in SAFE_BUILTINS.values() or (hasattr(f, "__self__") and any(
+        if f in SAFE_BUILTINS.values() or (getattr(f, "__module__", None) == "math" and getattr(f, "__name__", "") in SAFE_MATH) or (hasattr(f, "__self__") and not isinstance(f.__self__, type(_math)) and any(
                 isinstance(f.__self__, ty) and f.__name__ in names for ty, names in SAFE_METHODS.items())):
             if f is range and args and any(isinstance(a, int) and abs(a) > 1_000_000 for a in args):
                 raise NotConstant("range too large")
@@ -622,6 +747,11 @@ class ConstEval:
             return list(zip(s_, s_[1:]))
         if name == "filterfalse" and len(args) == 2 and fin(args[1]) is not None:
             return [x for x in fin(args[1]) if not self.truth(self.apply_callable(args[0], [x], mod) if args[0] is not None else x)]
+        if name == "filter" and len(args) == 2 and fin(args[1]) is not None:
+            return [x for x in fin(args[1]) if self.truth(self.apply_callable(args[0], [x], mod) if args[0] is not None else x)]
+        if name == "map" and len(args) >= 2 and all(fin(a) is not None for a in args[1:]):
+            cols = [fin(a) for a in args[1:]]
+            return [self.apply_callable(args[0], [c[i] for c in cols], mod) for i in range(min(len(c) for c in cols))]
         if name == "starmap" and len(args) == 2 and fin(args[1]) is not None:
             return [self.apply_callable(args[0], list(x), mod) for x in fin(args[1])]
         if name in ("takewhile", "dropwhile") and len(args) == 2 and fin(args[1]) is not None:
@@ -646,7 +776,7 @@ class ConstEval:
         raise NotConstant(f"call of {f!r}")
 
     def call_func(self, f: FuncRef, args, kw=None):
-        if any(isinstance(n, (ast.Yield, ast.YieldFrom)) for n in ast.walk(f.node)) and not getattr(self, "_in_gen_call", False):
+        if _is_generator(f.node) and not getattr(self, "_in_gen_call", False):
             # a generator function: its items, collected eagerly (sound when the generator body does not depend on what the consumer does between items)
             self._gen_items = getattr(self, "_gen_items", [])
             self._gen_items.append([])
@@ -702,6 +832,7 @@ class ConstEval:
                 loc[ka.arg] = self.eval(kd, {}, f.mod)
             else:
                 raise NotConstant(f"missing keyword-only argument {ka.arg}")
+        loc["__locals__"] = _function_locals(node) - set(loc)
         if a.vararg is not None:
             loc[a.vararg.arg] = tuple(args[len(params):])
         if a.kwarg is not None:
